@@ -1,7 +1,1324 @@
-//! `io.*` and `impl.io.*` operations (stub; filled in by the owner of this family).
+//! `io.*` operations (C16): fault injection on writers, readers, output slices and the
+//! `LimitedReader` (same line formats as lean/EpModel/Driver/Io.lean).
+//!
+//!   io.write.<t> <fields…> <k>     serialise into a writer that accepts exactly k bytes in total and
+//!                                  then fails with an injected error
+//!       → <result>;w=<hex of every byte the writer accepted>;post=<write calls after the failure>
+//!   io.wslice.<t> <fields…> <cap>  write_to_slice into the first cap bytes (filled 0x5a) of a buffer
+//!                                  that continues with 8 canary bytes
+//!       → <result>;buf=<hex of the cap bytes>;canary=intact|clobbered
+//!   io.read.<t> [start] <hex> <k>  read from a reader over <hex> that fails once k bytes were handed out
+//!       → <result>;used=<bytes handed out>;post=<read calls after the failure>
+//!   io.limited <hex> <k> <max> <src> <off> <layer> <op>…   one LimitedReader session
+//!       → [<op>=<result>@(max_len,read_len,layer_offset,layer),…];pulled=<bytes handed out>
+//!   io.build.write / io.build.wslice <path> <args…> <payload> <k|cap>   PacketBuilder paths
 #![allow(unused_imports, dead_code)]
 use crate::util::*;
+use etherparse::err::LenError;
+use etherparse::*;
+use std::io::{Read, Seek, SeekFrom, Write};
 
-pub fn run(_op: &str, _a: &[&str]) -> Option<String> {
-    None
+// ---------------------------------------------------------------------------------------------
+// instrumented writer / reader
+
+const INJECTED: &str = "injected";
+
+fn injected() -> std::io::Error {
+    std::io::Error::new(std::io::ErrorKind::Other, INJECTED)
+}
+
+/// accepts exactly `budget` bytes in total (partial writes allowed), then every non-empty write
+/// fails with the injected error. Records every accepted byte and counts calls after the failure.
+struct FailWriter {
+    budget: usize,
+    out: Vec<u8>,
+    failed: bool,
+    post: usize,
+}
+
+impl FailWriter {
+    fn new(k: usize) -> Self {
+        FailWriter {
+            budget: k,
+            out: Vec::new(),
+            failed: false,
+            post: 0,
+        }
+    }
+}
+
+impl Write for FailWriter {
+    fn write(&mut self, buf: &[u8]) -> std::io::Result<usize> {
+        if buf.is_empty() {
+            return Ok(0);
+        }
+        if self.failed {
+            self.post += 1;
+            return Err(injected());
+        }
+        if self.budget == 0 {
+            self.failed = true;
+            return Err(injected());
+        }
+        let n = core::cmp::min(buf.len(), self.budget);
+        self.out.extend_from_slice(&buf[..n]);
+        self.budget -= n;
+        Ok(n)
+    }
+    fn flush(&mut self) -> std::io::Result<()> {
+        Ok(())
+    }
+}
+
+/// hands out the bytes of `data` until `fail_at` bytes were handed out, then fails with the
+/// injected error; behind the end of the data it reports end of file (`Ok(0)`).
+struct FailReader {
+    data: Vec<u8>,
+    pos: usize,
+    fail_at: usize,
+    failed: bool,
+    post: usize,
+}
+
+impl FailReader {
+    fn new(data: Vec<u8>, k: usize) -> Self {
+        FailReader {
+            data,
+            pos: 0,
+            fail_at: k,
+            failed: false,
+            post: 0,
+        }
+    }
+}
+
+impl Read for FailReader {
+    fn read(&mut self, buf: &mut [u8]) -> std::io::Result<usize> {
+        if buf.is_empty() {
+            return Ok(0);
+        }
+        if self.failed {
+            self.post += 1;
+        }
+        if self.pos >= self.fail_at {
+            self.failed = true;
+            return Err(injected());
+        }
+        if self.pos >= self.data.len() {
+            self.failed = true;
+            return Ok(0);
+        }
+        let n = buf
+            .len()
+            .min(self.fail_at - self.pos)
+            .min(self.data.len() - self.pos);
+        buf[..n].copy_from_slice(&self.data[self.pos..self.pos + n]);
+        self.pos += n;
+        Ok(n)
+    }
+}
+
+impl Seek for FailReader {
+    fn seek(&mut self, _pos: SeekFrom) -> std::io::Result<u64> {
+        panic!("seek called")
+    }
+}
+
+fn io_err(e: &std::io::Error) -> String {
+    if e.kind() == std::io::ErrorKind::Other && e.to_string() == INJECTED {
+        "err(io)".to_string()
+    } else if e.kind() == std::io::ErrorKind::UnexpectedEof {
+        "err(eof)".to_string()
+    } else {
+        format!("err(io-unexpected({:?}))", e.kind())
+    }
+}
+
+// ---------------------------------------------------------------------------------------------
+// argument parsing (value construction copied from enc_link.rs / enc_net.rs)
+
+fn hex_n<const N: usize>(s: &str) -> Option<[u8; N]> {
+    hex(s)?.try_into().ok()
+}
+fn boolean(s: &str) -> Option<bool> {
+    match s {
+        "1" => Some(true),
+        "0" => Some(false),
+        _ => None,
+    }
+}
+fn list(s: &str) -> Vec<&str> {
+    if s == "-" {
+        Vec::new()
+    } else {
+        s.split(',').collect()
+    }
+}
+fn split_last<'a, 'b>(a: &'a [&'b str]) -> Option<(&'a [&'b str], &'b str)> {
+    let (l, r) = a.split_last()?;
+    Some((r, *l))
+}
+fn len_err(e: &LenError) -> String {
+    format!(
+        "err(len(req={},len={},src={:?},layer={:?},off={}))",
+        e.required_len, e.len, e.len_source, e.layer, e.layer_start_offset
+    )
+}
+
+/// a value that a checked constructor rejected is not a subject of this family
+type V<T> = Option<Option<T>>;
+
+fn mk_eth2(a: &[&str]) -> V<Ethernet2Header> {
+    match a {
+        [d, s, e] => Some(Some(Ethernet2Header {
+            destination: hex_n::<6>(d)?,
+            source: hex_n::<6>(s)?,
+            ether_type: EtherType(num(e)?),
+        })),
+        _ => None,
+    }
+}
+fn mk_vlan(a: &[&str]) -> V<SingleVlanHeader> {
+    match a {
+        [p, d, v, e] => {
+            let p: u8 = num(p)?;
+            let d = boolean(d)?;
+            let v: u16 = num(v)?;
+            let e: u16 = num(e)?;
+            Some((|| {
+                Some(SingleVlanHeader {
+                    pcp: VlanPcp::try_new(p).ok()?,
+                    drop_eligible_indicator: d,
+                    vlan_id: VlanId::try_new(v).ok()?,
+                    ether_type: EtherType(e),
+                })
+            })())
+        }
+        _ => None,
+    }
+}
+fn mk_sll(a: &[&str]) -> V<LinuxSllHeader> {
+    match a {
+        [pt, hrd, alen, addr, tag, v] => {
+            let pt: u16 = num(pt)?;
+            let hrd: u16 = num(hrd)?;
+            let alen: u16 = num(alen)?;
+            let addr = hex_n::<8>(addr)?;
+            let v: u16 = num(v)?;
+            let proto: Option<LinuxSllProtocolType> = match *tag {
+                "ign" => Some(LinuxSllProtocolType::Ignored(v)),
+                "netlink" => Some(LinuxSllProtocolType::NetlinkProtocolType(v)),
+                "gre" => Some(LinuxSllProtocolType::GenericRoutingEncapsulationProtocolType(v)),
+                "et" => Some(LinuxSllProtocolType::EtherType(EtherType(v))),
+                "nonstd" => LinuxNonstandardEtherType::try_from(v)
+                    .map(LinuxSllProtocolType::LinuxNonstandardEtherType)
+                    .ok(),
+                _ => return None,
+            };
+            Some((|| {
+                let packet_type = LinuxSllPacketType::try_from(pt).ok()?;
+                let protocol_type = proto?;
+                Some(LinuxSllHeader {
+                    packet_type,
+                    arp_hrd_type: ArpHardwareId(hrd),
+                    sender_address_valid_length: alen,
+                    sender_address: addr,
+                    protocol_type,
+                })
+            })())
+        }
+        _ => None,
+    }
+}
+fn mk_macsec(a: &[&str]) -> V<MacsecHeader> {
+    match a {
+        [p, et, es, scb, an, sl, pn, sci] => {
+            let et: u16 = num(et)?;
+            let ptype = match *p {
+                "unmod" => MacsecPType::Unmodified(EtherType(et)),
+                "mod" => MacsecPType::Modified,
+                "enc" => MacsecPType::Encrypted,
+                "encunmod" => MacsecPType::EncryptedUnmodified,
+                _ => return None,
+            };
+            let sci: Option<u64> = if *sci == "none" {
+                None
+            } else {
+                Some(num(sci)?)
+            };
+            let es = boolean(es)?;
+            let scb = boolean(scb)?;
+            let an: u8 = num(an)?;
+            let sl: u8 = num(sl)?;
+            let pn: u32 = num(pn)?;
+            Some((|| {
+                Some(MacsecHeader {
+                    ptype,
+                    endstation_id: es,
+                    scb,
+                    an: MacsecAn::try_new(an).ok()?,
+                    short_len: MacsecShortLen::try_from_u8(sl).ok()?,
+                    packet_nr: pn,
+                    sci,
+                })
+            })())
+        }
+        _ => None,
+    }
+}
+fn mk_arp(a: &[&str]) -> V<ArpPacket> {
+    match a {
+        [hw, pr, op, s1, s2, t1, t2] => {
+            let hw: u16 = num(hw)?;
+            let pr: u16 = num(pr)?;
+            let op: u16 = num(op)?;
+            let (s1, s2, t1, t2) = (hex(s1)?, hex(s2)?, hex(t1)?, hex(t2)?);
+            Some(
+                ArpPacket::new(
+                    ArpHardwareId(hw),
+                    EtherType(pr),
+                    ArpOperation(op),
+                    &s1,
+                    &s2,
+                    &t1,
+                    &t2,
+                )
+                .ok(),
+            )
+        }
+        _ => None,
+    }
+}
+fn mk_udp(a: &[&str]) -> V<UdpHeader> {
+    match a {
+        [s, d, l, c] => Some(Some(UdpHeader {
+            source_port: num(s)?,
+            destination_port: num(d)?,
+            length: num(l)?,
+            checksum: num(c)?,
+        })),
+        _ => None,
+    }
+}
+fn mk_tcp(a: &[&str]) -> V<TcpHeader> {
+    match a {
+        [sp, dp, seq, ack, fl, win, ck, urg, opts] => {
+            let mut h = TcpHeader::new(num(sp)?, num(dp)?, num(seq)?, num(win)?);
+            h.acknowledgment_number = num(ack)?;
+            h.checksum = num(ck)?;
+            h.urgent_pointer = num(urg)?;
+            let opts = hex(opts)?;
+            if fl.len() != 9 {
+                return None;
+            }
+            let mut bits = [false; 9];
+            for (i, c) in fl.chars().enumerate() {
+                bits[i] = match c {
+                    '1' => true,
+                    '0' => false,
+                    _ => return None,
+                };
+            }
+            h.ns = bits[0];
+            h.fin = bits[1];
+            h.syn = bits[2];
+            h.rst = bits[3];
+            h.psh = bits[4];
+            h.ack = bits[5];
+            h.urg = bits[6];
+            h.ece = bits[7];
+            h.cwr = bits[8];
+            Some(match h.set_options_raw(&opts) {
+                Ok(()) => Some(h),
+                Err(_) => None,
+            })
+        }
+        _ => None,
+    }
+}
+fn mk_icmpv4(a: &[&str]) -> V<Icmpv4Header> {
+    use icmpv4::*;
+    match a {
+        [ck, v, args] => {
+            let ck: u16 = num(ck)?;
+            let l = list(args);
+            let ty: Option<Icmpv4Type> = match (*v, &l[..]) {
+                ("unknown", [t, c, b]) => Some(Icmpv4Type::Unknown {
+                    type_u8: num(t)?,
+                    code_u8: num(c)?,
+                    bytes5to8: hex_n::<4>(b)?,
+                }),
+                ("echoreply", [i, s]) => Some(Icmpv4Type::EchoReply(IcmpEchoHeader {
+                    id: num(i)?,
+                    seq: num(s)?,
+                })),
+                ("echoreq", [i, s]) => Some(Icmpv4Type::EchoRequest(IcmpEchoHeader {
+                    id: num(i)?,
+                    seq: num(s)?,
+                })),
+                ("du", [c, m]) => DestUnreachableHeader::from_values(num(c)?, num(m)?)
+                    .map(Icmpv4Type::DestinationUnreachable),
+                ("redirect", [c, g]) => {
+                    let g = hex_n::<4>(g)?;
+                    RedirectCode::from_u8(num(c)?).map(|code| {
+                        Icmpv4Type::Redirect(RedirectHeader {
+                            code,
+                            gateway_internet_address: g,
+                        })
+                    })
+                }
+                ("te", [c]) => TimeExceededCode::from_u8(num(c)?).map(Icmpv4Type::TimeExceeded),
+                ("pp", [c, p]) => ParameterProblemHeader::from_values(num(c)?, num(p)?)
+                    .map(Icmpv4Type::ParameterProblem),
+                ("tsreq", [i, s, o, r, t]) => {
+                    Some(Icmpv4Type::TimestampRequest(TimestampMessage {
+                        id: num(i)?,
+                        seq: num(s)?,
+                        originate_timestamp: num(o)?,
+                        receive_timestamp: num(r)?,
+                        transmit_timestamp: num(t)?,
+                    }))
+                }
+                ("tsreply", [i, s, o, r, t]) => {
+                    Some(Icmpv4Type::TimestampReply(TimestampMessage {
+                        id: num(i)?,
+                        seq: num(s)?,
+                        originate_timestamp: num(o)?,
+                        receive_timestamp: num(r)?,
+                        transmit_timestamp: num(t)?,
+                    }))
+                }
+                _ => return None,
+            };
+            Some(ty.map(|icmp_type| Icmpv4Header {
+                icmp_type,
+                checksum: ck,
+            }))
+        }
+        _ => None,
+    }
+}
+fn mk_icmpv6(a: &[&str]) -> V<Icmpv6Header> {
+    use icmpv6::*;
+    match a {
+        [ck, v, args] => {
+            let ck: u16 = num(ck)?;
+            let l = list(args);
+            let ty: Option<Icmpv6Type> = match (*v, &l[..]) {
+                ("unknown", [t, c, b]) => Some(Icmpv6Type::Unknown {
+                    type_u8: num(t)?,
+                    code_u8: num(c)?,
+                    bytes5to8: hex_n::<4>(b)?,
+                }),
+                ("du", [c]) => {
+                    DestUnreachableCode::from_u8(num(c)?).map(Icmpv6Type::DestinationUnreachable)
+                }
+                ("ptb", [m]) => Some(Icmpv6Type::PacketTooBig { mtu: num(m)? }),
+                ("te", [c]) => TimeExceededCode::from_u8(num(c)?).map(Icmpv6Type::TimeExceeded),
+                ("pp", [c, p]) => {
+                    let pointer: u32 = num(p)?;
+                    ParameterProblemCode::from_u8(num(c)?).map(|code| {
+                        Icmpv6Type::ParameterProblem(ParameterProblemHeader { code, pointer })
+                    })
+                }
+                ("echoreq", [i, s]) => Some(Icmpv6Type::EchoRequest(IcmpEchoHeader {
+                    id: num(i)?,
+                    seq: num(s)?,
+                })),
+                ("echoreply", [i, s]) => Some(Icmpv6Type::EchoReply(IcmpEchoHeader {
+                    id: num(i)?,
+                    seq: num(s)?,
+                })),
+                ("rs", []) => Some(Icmpv6Type::RouterSolicitation),
+                ("ra", [c, m, o, lt]) => {
+                    Some(Icmpv6Type::RouterAdvertisement(RouterAdvertisementHeader {
+                        cur_hop_limit: num(c)?,
+                        managed_address_config: boolean(m)?,
+                        other_config: boolean(o)?,
+                        router_lifetime: num(lt)?,
+                    }))
+                }
+                ("ns", []) => Some(Icmpv6Type::NeighborSolicitation),
+                ("na", [r, s, o]) => {
+                    Some(Icmpv6Type::NeighborAdvertisement(NeighborAdvertisementHeader {
+                        router: boolean(r)?,
+                        solicited: boolean(s)?,
+                        r#override: boolean(o)?,
+                    }))
+                }
+                ("redirect", []) => Some(Icmpv6Type::Redirect),
+                _ => return None,
+            };
+            Some(ty.map(|icmp_type| Icmpv6Header {
+                icmp_type,
+                checksum: ck,
+            }))
+        }
+        _ => None,
+    }
+}
+fn mk_ipv6(a: &[&str]) -> V<Ipv6Header> {
+    if let [tc, fl, plen, nh, hop, src, dst] = a {
+        let tc: u8 = num(tc)?;
+        let fl: u32 = num(fl)?;
+        let plen: u16 = num(plen)?;
+        let nh: u8 = num(nh)?;
+        let hop: u8 = num(hop)?;
+        let src: [u8; 16] = hex_n::<16>(src)?;
+        let dst: [u8; 16] = hex_n::<16>(dst)?;
+        Some(Ipv6FlowLabel::try_new(fl).ok().map(|fl| Ipv6Header {
+            traffic_class: tc,
+            flow_label: fl,
+            payload_length: plen,
+            next_header: IpNumber(nh),
+            hop_limit: hop,
+            source: src,
+            destination: dst,
+        }))
+    } else {
+        None
+    }
+}
+fn mk_frag(a: &[&str]) -> V<Ipv6FragmentHeader> {
+    if let [nh, fo, mf, id] = a {
+        let nh: u8 = num(nh)?;
+        let fo: u16 = num(fo)?;
+        let mf = boolean(mf)?;
+        let id: u32 = num(id)?;
+        Some(
+            IpFragOffset::try_new(fo)
+                .ok()
+                .map(|fo| Ipv6FragmentHeader::new(IpNumber(nh), fo, mf, id)),
+        )
+    } else {
+        None
+    }
+}
+fn mk_ipv4(a: &[&str]) -> V<Ipv4Header> {
+    if let [dscp, ecn, tlen, id, df, mf, fo, ttl, proto, ck, src, dst, opts] = a {
+        let dscp: u8 = num(dscp)?;
+        let ecn: u8 = num(ecn)?;
+        let tlen: u16 = num(tlen)?;
+        let id: u16 = num(id)?;
+        let df = boolean(df)?;
+        let mf = boolean(mf)?;
+        let fo: u16 = num(fo)?;
+        let ttl: u8 = num(ttl)?;
+        let proto: u8 = num(proto)?;
+        let ck: u16 = num(ck)?;
+        let src: [u8; 4] = hex_n::<4>(src)?;
+        let dst: [u8; 4] = hex_n::<4>(dst)?;
+        let opts = hex(opts)?;
+        Some((|| {
+            Some(Ipv4Header {
+                dscp: IpDscp::try_new(dscp).ok()?,
+                ecn: IpEcn::try_new(ecn).ok()?,
+                total_len: tlen,
+                identification: id,
+                dont_fragment: df,
+                more_fragments: mf,
+                fragment_offset: IpFragOffset::try_new(fo).ok()?,
+                time_to_live: ttl,
+                protocol: IpNumber(proto),
+                header_checksum: ck,
+                source: src,
+                destination: dst,
+                options: Ipv4Options::try_from(&opts[..]).ok()?,
+            })
+        })())
+    } else {
+        None
+    }
+}
+fn mk_auth(a: &[&str]) -> V<IpAuthHeader> {
+    if let [nh, spi, seq, icv] = a {
+        let nh: u8 = num(nh)?;
+        let spi: u32 = num(spi)?;
+        let seq: u32 = num(seq)?;
+        let icv = hex(icv)?;
+        Some(IpAuthHeader::new(IpNumber(nh), spi, seq, &icv).ok())
+    } else {
+        None
+    }
+}
+fn mk_rawext(a: &[&str]) -> V<Ipv6RawExtHeader> {
+    if let [nh, payload] = a {
+        let nh: u8 = num(nh)?;
+        let payload = hex(payload)?;
+        Some(Ipv6RawExtHeader::new_raw(IpNumber(nh), &payload).ok())
+    } else {
+        None
+    }
+}
+/// `none` or a comma separated field list
+fn mk_opt<T>(s: &str, mk: impl Fn(&[&str]) -> V<T>) -> V<Option<T>> {
+    if s == "none" {
+        return Some(Some(None));
+    }
+    let l: Vec<&str> = s.split(',').collect();
+    Some(mk(&l)?.map(Some))
+}
+fn mk_ipv4exts(a: &[&str]) -> V<Ipv4Extensions> {
+    match a {
+        [auth] => Some(mk_opt(auth, mk_auth)?.map(|auth| Ipv4Extensions { auth })),
+        _ => None,
+    }
+}
+/// hbh dst rt frag auth fdst (each `none` or a comma separated field list)
+fn mk_ipv6exts(a: &[&str]) -> V<Ipv6Extensions> {
+    match a {
+        [hbh, dst, rt, frag, auth, fdst] => {
+            let hbh = mk_opt(hbh, mk_rawext)?;
+            let dst = mk_opt(dst, mk_rawext)?;
+            let rt = mk_opt(rt, mk_rawext)?;
+            let frag = mk_opt(frag, mk_frag)?;
+            let auth = mk_opt(auth, mk_auth)?;
+            let fdst = mk_opt(fdst, mk_rawext)?;
+            Some((|| {
+                let (hbh, dst, rt, frag, auth, fdst) = (hbh?, dst?, rt?, frag?, auth?, fdst?);
+                // final destination options can only be stored behind a routing header
+                if rt.is_none() && fdst.is_some() {
+                    return None;
+                }
+                Some(Ipv6Extensions {
+                    hop_by_hop_options: hbh,
+                    destination_options: dst,
+                    routing: rt.map(|routing| Ipv6RoutingExtensions {
+                        routing,
+                        final_destination_options: fdst,
+                    }),
+                    fragment: frag,
+                    auth,
+                })
+            })())
+        }
+        _ => None,
+    }
+}
+/// `v4 <ipv4 fields,…> <auth>` or `v6 <ipv6 fields,…> hbh dst rt frag auth fdst`
+fn mk_ipheaders(a: &[&str]) -> V<IpHeaders> {
+    match a {
+        ["v4", h, auth] => {
+            let l: Vec<&str> = h.split(',').collect();
+            let h = mk_ipv4(&l)?;
+            let e = mk_ipv4exts(&[auth])?;
+            Some((|| Some(IpHeaders::Ipv4(h?, e?)))())
+        }
+        ["v6", h, rest @ ..] => {
+            let l: Vec<&str> = h.split(',').collect();
+            let h = mk_ipv6(&l)?;
+            let e = mk_ipv6exts(rest)?;
+            Some((|| Some(IpHeaders::Ipv6(h?, e?)))())
+        }
+        _ => None,
+    }
+}
+
+// ---------------------------------------------------------------------------------------------
+// error rendering
+
+fn ipv4_walk(e: &err::ipv4_exts::ExtsWalkError) -> String {
+    match e {
+        err::ipv4_exts::ExtsWalkError::ExtNotReferenced { missing_ext } => {
+            format!("err(notreferenced({}))", missing_ext.0)
+        }
+    }
+}
+fn ipv6_walk(e: &err::ipv6_exts::ExtsWalkError) -> String {
+    match e {
+        err::ipv6_exts::ExtsWalkError::HopByHopNotAtStart => "err(hbhnotatstart)".to_string(),
+        err::ipv6_exts::ExtsWalkError::ExtNotReferenced { missing_ext } => {
+            format!("err(notreferenced({}))", missing_ext.0)
+        }
+    }
+}
+fn auth_content(e: &err::ip_auth::HeaderError) -> String {
+    match e {
+        err::ip_auth::HeaderError::ZeroPayloadLen => "err(zeropayloadlen)".to_string(),
+    }
+}
+fn ipv6exts_content(e: &err::ipv6_exts::HeaderError) -> String {
+    match e {
+        err::ipv6_exts::HeaderError::HopByHopNotAtStart => "err(hbhnotatstart)".to_string(),
+        err::ipv6_exts::HeaderError::IpAuth(a) => auth_content(a),
+    }
+}
+
+// ---------------------------------------------------------------------------------------------
+// result lines
+
+fn wr_line<E>(
+    k: usize,
+    f: impl FnOnce(&mut FailWriter) -> Result<(), E>,
+    show: impl Fn(&E) -> String,
+) -> String {
+    let mut w = FailWriter::new(k);
+    let r = f(&mut w);
+    let rs = match r {
+        Ok(()) => "ok".to_string(),
+        Err(e) => show(&e),
+    };
+    format!("{};w={};post={}", rs, to_hex(&w.out), w.post)
+}
+
+const FILL: u8 = 0x5a;
+const CANARY: [u8; 8] = [0xc3, 0x3c, 0xc3, 0x3c, 0xa7, 0x7a, 0xa7, 0x7a];
+
+fn ws_line(cap: usize, f: impl FnOnce(&mut [u8]) -> String) -> String {
+    let mut buf = vec![FILL; cap + CANARY.len()];
+    buf[cap..].copy_from_slice(&CANARY);
+    let rs = f(&mut buf[..cap]);
+    format!(
+        "{};buf={};canary={}",
+        rs,
+        to_hex(&buf[..cap]),
+        if buf[cap..] == CANARY {
+            "intact"
+        } else {
+            "clobbered"
+        }
+    )
+}
+
+fn space_err(e: &err::SliceWriteSpaceError) -> String {
+    format!(
+        "err(space(req={},len={},layer={:?},off={}))",
+        e.required_len, e.len, e.layer, e.layer_start_offset
+    )
+}
+
+fn rd_line<T, E>(
+    data: Vec<u8>,
+    k: usize,
+    f: impl FnOnce(&mut FailReader) -> Result<T, E>,
+    ok: impl Fn(&T) -> String,
+    er: impl Fn(&E) -> String,
+) -> String {
+    let mut r = FailReader::new(data, k);
+    let res = f(&mut r);
+    let rs = match res {
+        Ok(v) => ok(&v),
+        Err(e) => er(&e),
+    };
+    format!("{};used={};post={}", rs, r.pos, r.post)
+}
+
+fn okb(b: &[u8]) -> String {
+    format!("ok({})", to_hex(b))
+}
+fn opt_hex<T>(o: &Option<T>, f: impl Fn(&T) -> Vec<u8>) -> String {
+    match o {
+        None => "none".to_string(),
+        Some(h) => to_hex(&f(h)),
+    }
+}
+fn show_ipv4exts(e: &Ipv4Extensions) -> String {
+    format!("auth={}", opt_hex(&e.auth, |h| h.to_bytes().to_vec()))
+}
+fn show_ipv6exts(e: &Ipv6Extensions) -> String {
+    let (rt, fdst) = match &e.routing {
+        None => ("none".to_string(), "none".to_string()),
+        Some(r) => (
+            to_hex(&r.routing.to_bytes()),
+            opt_hex(&r.final_destination_options, |h| h.to_bytes().to_vec()),
+        ),
+    };
+    format!(
+        "hbh={},dst={},rt={},frag={},auth={},fdst={}",
+        opt_hex(&e.hop_by_hop_options, |h| h.to_bytes().to_vec()),
+        opt_hex(&e.destination_options, |h| h.to_bytes().to_vec()),
+        rt,
+        opt_hex(&e.fragment, |h| h.to_bytes().to_vec()),
+        opt_hex(&e.auth, |h| h.to_bytes().to_vec()),
+        fdst
+    )
+}
+
+// ---------------------------------------------------------------------------------------------
+// LimitedReader sessions
+
+fn layer_of(s: &str) -> Option<err::Layer> {
+    use err::Layer::*;
+    Some(match s {
+        "Ethernet2Header" => Ethernet2Header,
+        "Ipv4Header" => Ipv4Header,
+        "Ipv4Packet" => Ipv4Packet,
+        "IpAuthHeader" => IpAuthHeader,
+        "Ipv6Header" => Ipv6Header,
+        "Ipv6ExtHeader" => Ipv6ExtHeader,
+        "Ipv6FragHeader" => Ipv6FragHeader,
+        "UdpHeader" => UdpHeader,
+        "TcpHeader" => TcpHeader,
+        _ => return None,
+    })
+}
+fn src_of(s: &str) -> Option<LenSource> {
+    Some(match s {
+        "Slice" => LenSource::Slice,
+        "Ipv4HeaderTotalLen" => LenSource::Ipv4HeaderTotalLen,
+        "Ipv6HeaderPayloadLen" => LenSource::Ipv6HeaderPayloadLen,
+        "UdpHeaderLen" => LenSource::UdpHeaderLen,
+        "TcpHeaderLen" => LenSource::TcpHeaderLen,
+        _ => return None,
+    })
+}
+fn lim_err(e: &err::io::LimitedReadError) -> String {
+    match e {
+        err::io::LimitedReadError::Io(e) => io_err(e),
+        err::io::LimitedReadError::Len(l) => len_err(l),
+    }
+}
+fn auth_lim_err(e: &err::ip_auth::HeaderLimitedReadError) -> String {
+    use err::ip_auth::HeaderLimitedReadError::*;
+    match e {
+        Io(e) => io_err(e),
+        Len(l) => len_err(l),
+        Content(c) => auth_content(c),
+    }
+}
+fn ipv6exts_lim_err(e: &err::ipv6_exts::HeaderLimitedReadError) -> String {
+    use err::ipv6_exts::HeaderLimitedReadError::*;
+    match e {
+        Io(e) => io_err(e),
+        Len(l) => len_err(l),
+        Content(c) => ipv6exts_content(c),
+    }
+}
+
+fn limited(a: &[&str]) -> Option<String> {
+    let (data, k, max, src, off, layer, ops) = match a {
+        [data, k, max, src, off, layer, ops @ ..] => (
+            hex(data)?,
+            num::<usize>(k)?,
+            num::<usize>(max)?,
+            src_of(src)?,
+            num::<usize>(off)?,
+            layer_of(layer)?,
+            ops,
+        ),
+        _ => return None,
+    };
+    // validate the op list before running anything
+    for op in ops {
+        let (name, arg) = op.split_once(':').unwrap_or((op, ""));
+        match name {
+            "read" => {
+                num::<usize>(arg)?;
+            }
+            "start" => {
+                layer_of(arg)?;
+            }
+            "ipv4exts" | "ipv6exts" => {
+                num::<u8>(arg)?;
+            }
+            "auth" | "frag" | "rawext" if arg.is_empty() => {}
+            _ => return None,
+        }
+    }
+    let mut inner = FailReader::new(data, k);
+    let mut out: Vec<String> = Vec::new();
+    {
+        let mut r = io::LimitedReader::new(&mut inner, max, src, off, layer);
+        for op in ops {
+            let (name, arg) = op.split_once(':').unwrap_or((op, ""));
+            let res = match name {
+                "read" => {
+                    let n: usize = num(arg)?;
+                    let mut buf = vec![0u8; n];
+                    match r.read_exact(&mut buf) {
+                        Ok(()) => okb(&buf),
+                        Err(e) => lim_err(&e),
+                    }
+                }
+                "start" => {
+                    r.start_layer(layer_of(arg)?);
+                    "ok".to_string()
+                }
+                "auth" => match IpAuthHeader::read_limited(&mut r) {
+                    Ok(h) => okb(&h.to_bytes()),
+                    Err(e) => auth_lim_err(&e),
+                },
+                "frag" => match Ipv6FragmentHeader::read_limited(&mut r) {
+                    Ok(h) => okb(&h.to_bytes()),
+                    Err(e) => lim_err(&e),
+                },
+                "rawext" => match Ipv6RawExtHeader::read_limited(&mut r) {
+                    Ok(h) => okb(&h.to_bytes()),
+                    Err(e) => lim_err(&e),
+                },
+                "ipv4exts" => match Ipv4Extensions::read_limited(&mut r, IpNumber(num(arg)?)) {
+                    Ok((e, next)) => format!("ok({},next={})", show_ipv4exts(&e), next.0),
+                    Err(e) => auth_lim_err(&e),
+                },
+                "ipv6exts" => match Ipv6Extensions::read_limited(&mut r, IpNumber(num(arg)?)) {
+                    Ok((e, next)) => format!("ok({},next={})", show_ipv6exts(&e), next.0),
+                    Err(e) => ipv6exts_lim_err(&e),
+                },
+                _ => return None,
+            };
+            out.push(format!(
+                "{}={}@({},{},{},{:?},{:?})",
+                op,
+                res,
+                r.max_len(),
+                r.read_len(),
+                r.layer_offset(),
+                r.layer(),
+                r.len_source()
+            ));
+        }
+        let _ = r.take_reader();
+    }
+    Some(format!("[{}];pulled={}", out.join(","), inner.pos))
+}
+
+// ---------------------------------------------------------------------------------------------
+// PacketBuilder paths
+
+enum Mode {
+    Write(usize),
+    Slice(usize),
+}
+
+fn too_big_usize(e: &err::ValueTooBigError<usize>) -> String {
+    format!(
+        "err(payloadlen(actual={},max={},vt={:?}))",
+        e.actual, e.max_allowed, e.value_type
+    )
+}
+fn build_err(e: &err::packet::BuildWriteError) -> String {
+    use err::packet::BuildWriteError::*;
+    match e {
+        Io(e) => io_err(e),
+        PayloadLen(e) => too_big_usize(e),
+        Ipv4Exts(c) => ipv4_walk(c),
+        Ipv6Exts(c) => ipv6_walk(c),
+        Icmpv6InIpv4 => "err(icmpv6inipv4)".to_string(),
+        ArpHeaderNotMatch => "err(arpheadernotmatch)".to_string(),
+    }
+}
+fn build_slice_err(e: &err::packet::BuildSliceWriteError) -> String {
+    use err::packet::BuildSliceWriteError::*;
+    match e {
+        Space(n) => format!("err(space({}))", n),
+        PayloadLen(e) => too_big_usize(e),
+        Ipv4Exts(c) => ipv4_walk(c),
+        Ipv6Exts(c) => ipv6_walk(c),
+        Icmpv6InIpv4 => "err(icmpv6inipv4)".to_string(),
+        ArpHeaderNotMatch => "err(arpheadernotmatch)".to_string(),
+    }
+}
+
+macro_rules! fin {
+    ($b:expr, $payload:expr, $mode:expr) => {
+        match $mode {
+            Mode::Write(k) => wr_line(k, |w| $b.write(w, $payload), build_err),
+            Mode::Slice(cap) => ws_line(cap, |buf| match $b.write_to_slice(buf, $payload) {
+                Ok(n) => format!("ok(n={})", n),
+                Err(e) => build_slice_err(&e),
+            }),
+        }
+    };
+}
+
+/// `<path> <args…> <payload> <k|cap>`
+fn build(a: &[&str], slice: bool) -> Option<String> {
+    let (a, last) = split_last(a)?;
+    let n: usize = num(last)?;
+    let mode = if slice { Mode::Slice(n) } else { Mode::Write(n) };
+    let (a, payload) = split_last(a)?;
+    let payload = hex(payload)?;
+    let (path, a) = a.split_first()?;
+    Some(match (*path, a) {
+        ("e4u", [s, d, is, id, ttl, sp, dp]) => {
+            let b = PacketBuilder::ethernet2(hex_n::<6>(s)?, hex_n::<6>(d)?)
+                .ipv4(hex_n::<4>(is)?, hex_n::<4>(id)?, num(ttl)?)
+                .udp(num(sp)?, num(dp)?);
+            fin!(b, &payload, mode)
+        }
+        ("ev6u", [s, d, vid, is, id, hop, sp, dp]) => {
+            let vid = match VlanId::try_new(num(vid)?) {
+                Ok(v) => v,
+                Err(_) => return Some("bad-value".to_string()),
+            };
+            let b = PacketBuilder::ethernet2(hex_n::<6>(s)?, hex_n::<6>(d)?)
+                .single_vlan(vid)
+                .ipv6(hex_n::<16>(is)?, hex_n::<16>(id)?, num(hop)?)
+                .udp(num(sp)?, num(dp)?);
+            fin!(b, &payload, mode)
+        }
+        ("4t", [is, id, ttl, sp, dp, seq, win]) => {
+            let b = PacketBuilder::ipv4(hex_n::<4>(is)?, hex_n::<4>(id)?, num(ttl)?).tcp(
+                num(sp)?,
+                num(dp)?,
+                num(seq)?,
+                num(win)?,
+            );
+            fin!(b, &payload, mode)
+        }
+        ("edd4i", [s, d, outer, inner, is, id, ttl, eid, eseq]) => {
+            let (o, i) = match (VlanId::try_new(num(outer)?), VlanId::try_new(num(inner)?)) {
+                (Ok(o), Ok(i)) => (o, i),
+                _ => return Some("bad-value".to_string()),
+            };
+            let b = PacketBuilder::ethernet2(hex_n::<6>(s)?, hex_n::<6>(d)?)
+                .double_vlan(o, i)
+                .ipv4(hex_n::<4>(is)?, hex_n::<4>(id)?, num(ttl)?)
+                .icmpv4_echo_request(num(eid)?, num(eseq)?);
+            fin!(b, &payload, mode)
+        }
+        ("6i6", [is, id, hop, eid, eseq]) => {
+            let b = PacketBuilder::ipv6(hex_n::<16>(is)?, hex_n::<16>(id)?, num(hop)?)
+                .icmpv6_echo_request(num(eid)?, num(eseq)?);
+            fin!(b, &payload, mode)
+        }
+        ("e4i6", [s, d, is, id, ttl, eid, eseq]) => {
+            let b = PacketBuilder::ethernet2(hex_n::<6>(s)?, hex_n::<6>(d)?)
+                .ipv4(hex_n::<4>(is)?, hex_n::<4>(id)?, num(ttl)?)
+                .icmpv6_echo_request(num(eid)?, num(eseq)?);
+            fin!(b, &payload, mode)
+        }
+        ("earp", [s, d, rest @ ..]) => {
+            if !payload.is_empty() {
+                return None;
+            }
+            let arp = match mk_arp(rest)? {
+                Some(p) => p,
+                None => return Some("bad-value".to_string()),
+            };
+            let b = PacketBuilder::ethernet2(hex_n::<6>(s)?, hex_n::<6>(d)?).arp(arp);
+            match mode {
+                Mode::Write(k) => wr_line(k, |w| b.write(w), build_err),
+                Mode::Slice(cap) => ws_line(cap, |buf| match b.write_to_slice(buf) {
+                    Ok(n) => format!("ok(n={})", n),
+                    Err(e) => build_slice_err(&e),
+                }),
+            }
+        }
+        _ => return None,
+    })
+}
+
+// ---------------------------------------------------------------------------------------------
+// dispatch
+
+macro_rules! simple_write {
+    ($a:expr, $mk:expr) => {{
+        let (f, k) = split_last($a)?;
+        let k: usize = num(k)?;
+        match $mk(f)? {
+            None => "bad-value".to_string(),
+            Some(h) => wr_line(k, |w| h.write(w), io_err),
+        }
+    }};
+}
+
+macro_rules! simple_read {
+    ($a:expr, $ty:ty) => {{
+        match $a {
+            [d, k] => rd_line(
+                hex(d)?,
+                num(k)?,
+                |r| <$ty>::read(r),
+                |h| okb(&h.to_bytes()),
+                io_err,
+            ),
+            _ => return None,
+        }
+    }};
+}
+
+pub fn run(op: &str, a: &[&str]) -> Option<String> {
+    Some(match op {
+        // ---- writers
+        "io.write.eth2" => simple_write!(a, mk_eth2),
+        "io.write.vlan" => simple_write!(a, mk_vlan),
+        "io.write.sll" => simple_write!(a, mk_sll),
+        "io.write.macsec" => simple_write!(a, mk_macsec),
+        "io.write.arp" => simple_write!(a, mk_arp),
+        "io.write.ipv4" => simple_write!(a, mk_ipv4),
+        "io.write.ipv4raw" => {
+            let (f, k) = split_last(a)?;
+            let k: usize = num(k)?;
+            match mk_ipv4(f)? {
+                None => "bad-value".to_string(),
+                Some(h) => wr_line(k, |w| h.write_raw(w), io_err),
+            }
+        }
+        "io.write.ipv6" => simple_write!(a, mk_ipv6),
+        "io.write.ipv6frag" => simple_write!(a, mk_frag),
+        "io.write.rawext" => simple_write!(a, mk_rawext),
+        "io.write.auth" => simple_write!(a, mk_auth),
+        "io.write.udp" => simple_write!(a, mk_udp),
+        "io.write.tcp" => simple_write!(a, mk_tcp),
+        "io.write.icmpv4" => simple_write!(a, mk_icmpv4),
+        "io.write.icmpv6" => simple_write!(a, mk_icmpv6),
+        "io.write.ipv4exts" => {
+            // <start> <auth> <k>
+            let (f, k) = split_last(a)?;
+            let k: usize = num(k)?;
+            let (start, f) = f.split_first()?;
+            let start: u8 = num(start)?;
+            match mk_ipv4exts(f)? {
+                None => "bad-value".to_string(),
+                Some(e) => wr_line(
+                    k,
+                    |w| e.write(w, IpNumber(start)),
+                    |e| match e {
+                        err::ipv4_exts::HeaderWriteError::Io(e) => io_err(e),
+                        err::ipv4_exts::HeaderWriteError::Content(c) => ipv4_walk(c),
+                    },
+                ),
+            }
+        }
+        "io.write.ipv6exts" => {
+            // <first> hbh dst rt frag auth fdst <k>
+            let (f, k) = split_last(a)?;
+            let k: usize = num(k)?;
+            let (start, f) = f.split_first()?;
+            let start: u8 = num(start)?;
+            match mk_ipv6exts(f)? {
+                None => "bad-value".to_string(),
+                Some(e) => wr_line(
+                    k,
+                    |w| e.write(w, IpNumber(start)),
+                    |e| match e {
+                        err::ipv6_exts::HeaderWriteError::Io(e) => io_err(e),
+                        err::ipv6_exts::HeaderWriteError::Content(c) => ipv6_walk(c),
+                    },
+                ),
+            }
+        }
+        "io.write.ipheaders" => {
+            let (f, k) = split_last(a)?;
+            let k: usize = num(k)?;
+            match mk_ipheaders(f)? {
+                None => "bad-value".to_string(),
+                Some(h) => wr_line(
+                    k,
+                    |w| h.write(w),
+                    |e| match e {
+                        err::ip::HeadersWriteError::Io(e) => io_err(e),
+                        err::ip::HeadersWriteError::Ipv4Exts(c) => ipv4_walk(c),
+                        err::ip::HeadersWriteError::Ipv6Exts(c) => ipv6_walk(c),
+                    },
+                ),
+            }
+        }
+        // ---- slice writers
+        "io.wslice.eth2" => {
+            let (f, c) = split_last(a)?;
+            let cap: usize = num(c)?;
+            match mk_eth2(f)? {
+                None => "bad-value".to_string(),
+                Some(h) => ws_line(cap, |buf| match h.write_to_slice(buf) {
+                    Ok(rest) => format!("ok(rest={})", rest.len()),
+                    Err(e) => space_err(&e),
+                }),
+            }
+        }
+        "io.wslice.sll" => {
+            let (f, c) = split_last(a)?;
+            let cap: usize = num(c)?;
+            match mk_sll(f)? {
+                None => "bad-value".to_string(),
+                Some(h) => ws_line(cap, |buf| match h.write_to_slice(buf) {
+                    Ok(rest) => format!("ok(rest={})", rest.len()),
+                    Err(e) => space_err(&e),
+                }),
+            }
+        }
+        // ---- readers
+        "io.read.eth2" => simple_read!(a, Ethernet2Header),
+        "io.read.vlan" => simple_read!(a, SingleVlanHeader),
+        "io.read.sll" => match a {
+            [d, k] => rd_line(
+                hex(d)?,
+                num(k)?,
+                |r| LinuxSllHeader::read(r),
+                |h| okb(&h.to_bytes()),
+                |e| match e {
+                    err::ReadError::Io(e) => io_err(e),
+                    err::ReadError::LinuxSll(c) => {
+                        use err::linux_sll::HeaderError::*;
+                        match c {
+                            UnsupportedPacketTypeField { packet_type } => format!(
+                                "err(content(UnsupportedPacketTypeField(packet_type={})))",
+                                packet_type
+                            ),
+                            UnsupportedArpHardwareId { arp_hardware_type } => format!(
+                                "err(content(UnsupportedArpHardwareId(arp_hardware_type={})))",
+                                arp_hardware_type.0
+                            ),
+                        }
+                    }
+                    other => format!("err(unexpected({:?}))", other),
+                },
+            ),
+            _ => return None,
+        },
+        "io.read.macsec" => match a {
+            [d, k] => rd_line(
+                hex(d)?,
+                num(k)?,
+                |r| MacsecHeader::read(r),
+                |h| okb(&h.to_bytes()),
+                |e| match e {
+                    err::macsec::HeaderReadError::Io(e) => io_err(e),
+                    err::macsec::HeaderReadError::Content(c) => format!("err(content({:?}))", c),
+                },
+            ),
+            _ => return None,
+        },
+        "io.read.arp" => simple_read!(a, ArpPacket),
+        "io.read.ipv4" => match a {
+            [d, k] => rd_line(
+                hex(d)?,
+                num(k)?,
+                |r| Ipv4Header::read(r),
+                |h| okb(&h.to_bytes()),
+                |e| {
+                    use err::ipv4::{HeaderError::*, HeaderReadError::*};
+                    match e {
+                        Io(e) => io_err(e),
+                        Content(UnexpectedVersion { version_number }) => {
+                            format!("err(version({}))", version_number)
+                        }
+                        Content(HeaderLengthSmallerThanHeader { ihl }) => {
+                            format!("err(ihl({}))", ihl)
+                        }
+                    }
+                },
+            ),
+            _ => return None,
+        },
+        "io.read.ipv6" => match a {
+            [d, k] => rd_line(
+                hex(d)?,
+                num(k)?,
+                |r| Ipv6Header::read(r),
+                |h| okb(&h.to_bytes()),
+                |e| {
+                    use err::ipv6::{HeaderError::*, HeaderReadError::*};
+                    match e {
+                        Io(e) => io_err(e),
+                        Content(UnexpectedVersion { version_number }) => {
+                            format!("err(version({}))", version_number)
+                        }
+                    }
+                },
+            ),
+            _ => return None,
+        },
+        "io.read.ipv6frag" => simple_read!(a, Ipv6FragmentHeader),
+        "io.read.rawext" => simple_read!(a, Ipv6RawExtHeader),
+        "io.read.auth" => match a {
+            [d, k] => rd_line(
+                hex(d)?,
+                num(k)?,
+                |r| IpAuthHeader::read(r),
+                |h| okb(&h.to_bytes()),
+                |e| match e {
+                    err::ip_auth::HeaderReadError::Io(e) => io_err(e),
+                    err::ip_auth::HeaderReadError::Content(c) => auth_content(c),
+                },
+            ),
+            _ => return None,
+        },
+        "io.read.udp" => simple_read!(a, UdpHeader),
+        "io.read.tcp" => match a {
+            [d, k] => rd_line(
+                hex(d)?,
+                num(k)?,
+                |r| TcpHeader::read(r),
+                |h| okb(&h.to_bytes()),
+                |e| match e {
+                    err::tcp::HeaderReadError::Io(e) => io_err(e),
+                    err::tcp::HeaderReadError::Content(
+                        err::tcp::HeaderError::DataOffsetTooSmall { data_offset },
+                    ) => format!(
+                        "err(content(DataOffsetTooSmall(data_offset={})))",
+                        data_offset
+                    ),
+                },
+            ),
+            _ => return None,
+        },
+        "io.read.icmpv4" => simple_read!(a, Icmpv4Header),
+        "io.read.icmpv6" => simple_read!(a, Icmpv6Header),
+        "io.read.ipv4exts" => match a {
+            [start, d, k] => {
+                let start: u8 = num(start)?;
+                rd_line(
+                    hex(d)?,
+                    num(k)?,
+                    |r| Ipv4Extensions::read(r, IpNumber(start)),
+                    |(e, next)| format!("ok({},next={})", show_ipv4exts(e), next.0),
+                    |e| match e {
+                        err::ip_auth::HeaderReadError::Io(e) => io_err(e),
+                        err::ip_auth::HeaderReadError::Content(c) => auth_content(c),
+                    },
+                )
+            }
+            _ => return None,
+        },
+        "io.read.ipv6exts" => match a {
+            [start, d, k] => {
+                let start: u8 = num(start)?;
+                rd_line(
+                    hex(d)?,
+                    num(k)?,
+                    |r| Ipv6Extensions::read(r, IpNumber(start)),
+                    |(e, next)| format!("ok({},next={})", show_ipv6exts(e), next.0),
+                    |e| match e {
+                        err::ipv6_exts::HeaderReadError::Io(e) => io_err(e),
+                        err::ipv6_exts::HeaderReadError::Content(c) => ipv6exts_content(c),
+                    },
+                )
+            }
+            _ => return None,
+        },
+        "io.read.ipheaders" => match a {
+            [d, k] => rd_line(
+                hex(d)?,
+                num(k)?,
+                |r| IpHeaders::read(r),
+                |(h, next)| match h {
+                    IpHeaders::Ipv4(h, e) => format!(
+                        "ok(v4(h={},{}),next={})",
+                        to_hex(&h.to_bytes()),
+                        show_ipv4exts(e),
+                        next.0
+                    ),
+                    IpHeaders::Ipv6(h, e) => format!(
+                        "ok(v6(h={},{}),next={})",
+                        to_hex(&h.to_bytes()),
+                        show_ipv6exts(e),
+                        next.0
+                    ),
+                },
+                |e| {
+                    use err::ip::{HeaderError::*, HeaderReadError::*, HeadersError::*};
+                    match e {
+                        Io(e) => io_err(e),
+                        Len(l) => len_err(l),
+                        Content(Ip(UnsupportedIpVersion { version_number })) => {
+                            format!("err(version({}))", version_number)
+                        }
+                        Content(Ip(Ipv4HeaderLengthSmallerThanHeader { ihl })) => {
+                            format!("err(ihl({}))", ihl)
+                        }
+                        Content(Ipv4Ext(c)) => auth_content(c),
+                        Content(Ipv6Ext(c)) => ipv6exts_content(c),
+                    }
+                },
+            ),
+            _ => return None,
+        },
+        // ---- LimitedReader
+        "io.limited" => limited(a)?,
+        "io.build.write" => build(a, false)?,
+        "io.build.wslice" => build(a, true)?,
+        _ => return None,
+    })
 }
